@@ -1227,6 +1227,26 @@ fn build_space(tier: Tier, ci: usize) -> (Vec<Case>, String) {
             }
         }
 
+        // Block B2 (quick only; thorough's block B already varies rtcp-mux per section): all ordered
+        // pairs and triples over audio/video sections that differ only in rtcp-mux {yes, no}.
+        if !thorough {
+            let b2 = section_alphabet(&[Kind::Audio, Kind::Video], &[MIDS[0]], &[1], &[0], &[1], &[0], &[true, false]);
+            let mut words: Vec<Vec<Sec>> = product2(&b2);
+            for w in product2(&b2) {
+                for x in &b2 {
+                    let mut t = w.clone();
+                    t.push(x.clone());
+                    words.push(t);
+                }
+            }
+            for w in words {
+                for &bundle in &[true, false] {
+                    cases.push(Case { cfg: ci, offer: Offer { secs: w.clone(), setup: 0, bundle, sess_level: false }, change: None, block: "B2:mux-per-section" });
+                    n_b += 1;
+                }
+            }
+        }
+
         // Block C: 3..6 sections over a reduced per-section alphabet; one mid scheme per offer.
         let mut n_c = 0u64;
         for n in 3..=6usize {
@@ -1305,7 +1325,7 @@ fn space_statement(tier: Tier) -> Vec<String> {
         v.push("block C (3..6 sections): all words of length 3,4,5,6 over 6 letters {audio sendrecv, audio recvonly, video sendonly, video inactive, application, image} (first codec list, extmap ids 1-3, rtcp-mux, setup actpass) x one mid scheme per offer {numeric, token, absent} x BUNDLE {all, none}, on all 8 configurations".to_string());
         v.push("block D (two negotiations): base offers = block A's 678 one-section letters and all ordered pairs over 8 letters (kind x mid {numeric, absent}, audio opus+PCMU+telephone-event / video VP8+RTX, extmap ids 1-3, sendrecv, rtcp-mux), each x BUNDLE {all, none}, setup actpass; the first answer is applied with set_local_description and a second offer = one of 7 change operators {identical, direction flip (sendrecv<->sendonly), next codec list, next extmap set, append a section, toggle rtcp-mux, toggle BUNDLE} of the first is negotiated".to_string());
     } else {
-        v.push("block B (two sections): all ordered pairs over 54 letters (audio codec {PCMU, opus+PCMU+telephone-event}, video codec {VP8+RTX, H264(96)+VP8(98)}, extmap {none, colliding}, direction {sendrecv, sendonly}, rtcp-mux yes, mid 3; application/image x mid 3) x BUNDLE {all, none} x (WebRTC flavour) setup {actpass, active}".to_string());
+        v.push("block B (two sections): all ordered pairs over 54 letters (audio codec {PCMU, opus+PCMU+telephone-event}, video codec {VP8+RTX, H264(96)+VP8(98)}, extmap {none, colliding}, direction {sendrecv, sendonly}, rtcp-mux yes, mid 3; application/image x mid 3) x BUNDLE {all, none} x (WebRTC flavour) setup {actpass, active}; block B2: all ordered pairs and triples over {audio, video} x rtcp-mux {yes, no} (opus+PCMU / VP8+RTX, extmap ids 1-3, sendrecv, numeric mids) x BUNDLE {all, none}".to_string());
         v.push("block C (3..6 sections): all words of length 3 and 4 over 6 letters {audio sendrecv, audio recvonly, video sendonly, video inactive, application, image} on all 8 configurations, and of length 5 and 6 over 4 letters {audio sendrecv, video sendonly, application, image} on default and rtp-mode (first codec list, extmap ids 1-3, rtcp-mux, setup actpass) x one mid scheme per offer {numeric, token, absent} x BUNDLE {all, none}".to_string());
         v.push("block D (two negotiations): base offers = one section over 168 letters (audio 3 codec lists / video {VP8+RTX, H264(102)+VP8(96), H264(96)+VP8(98)}, extmap {none, ids 1-3, colliding}, direction {sendrecv, sendonly, inactive}, rtcp-mux yes, mid 3; application/image x mid 3) and all ordered pairs over 8 letters (kind x mid {numeric, absent}, audio opus+PCMU+telephone-event / video VP8+RTX, extmap ids 1-3, sendrecv, rtcp-mux), each x BUNDLE {all, none}, setup actpass; the first answer is applied with set_local_description and a second offer = one of 7 change operators {identical, direction flip (sendrecv<->sendonly), next codec list, next extmap set, append a section, toggle rtcp-mux, toggle BUNDLE} of the first is negotiated".to_string());
     }
